@@ -29,6 +29,7 @@ type Obligation struct {
 	All     []solverResult
 	queryFile string
 	batch     bool
+	pins      []string // extra constraints fixing a concretised model
 	QueryKB int
 	ctx     *FnCtx
 }
@@ -105,6 +106,7 @@ type FnCtx struct {
 	fnFacts   map[string]bool
 	replayParams []replayParam
 	resultVals   []Val
+	exitState    *State
 	atoms        map[string]string
 	bounded      int // > 0: bounded stand-in run, loops explored up to this many iterations
 }
@@ -158,6 +160,18 @@ func (c *FnCtx) def(prefix, sort, term string) string {
 func (c *FnCtx) defAlways(prefix, sort, term string) string {
 	n := c.fresh(prefix)
 	c.emit(fmt.Sprintf("(define-fun %s () %s %s)", n, sort, term))
+	return n
+}
+
+// defRow defines an array by its element at index i. z3 gets a lambda
+// (no quantifier); other back ends get a constant with a defining axiom.
+// Script lines tagged "#z3# " / "#gen# " go only into that variant.
+func (c *FnCtx) defRow(sort, bodyOverI string) string {
+	n := c.fresh("row")
+	as := "(Array Int " + sort + ")"
+	c.emit(fmt.Sprintf("#z3# (define-fun %s () %s (lambda ((i Int)) %s))", n, as, bodyOverI))
+	c.emit(fmt.Sprintf("#gen# (declare-const %s %s)", n, as))
+	c.emit(fmt.Sprintf("#gen# (assert (forall ((i Int)) (! (= (select %s i) %s) :pattern ((select %s i)))))", n, bodyOverI, n))
 	return n
 }
 
